@@ -112,6 +112,14 @@ def binop (op : BinOp) (t : ITy) (x y : Int) : Option Int :=
   | .gt => some (b2z (decide (x > y)))
   | .ge => some (b2z (decide (x ≥ y)))
 
+/-- unary operators on the promoted operand value `x` of (promoted) type `t` -/
+def unop (op : UnOp) (t : ITy) (x : Int) : Option Int :=
+  match op with
+  | .neg => arith t (-x)
+  | .bitnot => some (t.convert ((~~~ (BitVec.ofInt 64 x)).toInt))
+  | .lognot => some (b2z (x == 0))
+  | .plus => some x
+
 def BinOp.isShift : BinOp → Bool
   | .shl | .shr => true | _ => false
 
@@ -122,13 +130,7 @@ def eval : CExpr → Option Int
   | .un op e =>
     match eval e with
     | none => none
-    | some x =>
-      let t := (typeOf e).promote
-      match op with
-      | .neg => arith t (-x)
-      | .bitnot => some (t.convert ((~~~ (BitVec.ofInt 64 x)).toInt))
-      | .lognot => some (b2z (x == 0))
-      | .plus => some x
+    | some x => unop op (typeOf e).promote x
   | .bin op a b =>
     match eval a, eval b with
     | some x, some y =>
